@@ -34,6 +34,8 @@ pub enum Lane {
 
 #[derive(Debug, Clone)]
 pub struct NetCfg {
+    /// every datagram addressed to one of these is lost (a peer that never hears anything)
+    pub blackhole_dst: Vec<SocketAddr>,
     /// corrupt Retry packets in flight: (kind, how many Retry packets from the start are affected)
     pub retry_mutation: Option<(u8, u32)>,
     pub latency_ns: u64,
@@ -63,6 +65,7 @@ pub struct NetCfg {
 impl Default for NetCfg {
     fn default() -> Self {
         Self {
+            blackhole_dst: vec![],
             retry_mutation: None,
             latency_ns: 10_000_000,
             jitter_ns: 0,
@@ -632,6 +635,10 @@ impl World {
         }
         if n.drop_idx[dir].contains(&idx) {
             self.net.fired.inc("enum_drop");
+            return;
+        }
+        if n.blackhole_dst.contains(&dst) {
+            self.net.fired.inc("blackholed");
             return;
         }
         if faults_on && self.rng.permille(n.loss_pm) {
